@@ -123,3 +123,23 @@ PROPS["C12"] = dict(
     bounds=dict(quick="12 API operations x re-entry from {Process, Close, Reopen}; one re-entrant node", thorough="same"),
     trusted_base=COMMON_TRUST,
 )
+
+EO_JOB = dict(kind="eo", harness=BROKER_H + ["eventlogger/eo.go"], eo_entry="H_EO_process")
+EO_NOTE = "Schedules: thread automata of graph.process (collector), its range goroutine and every doProcess goroutine are extracted from the real go/ssa (one goroutine at a time, join-merged), then all interleavings, cancel instants, node outcomes and node-return delays of a configuration are one SMT formula (event-order encoding: an 'executed' Boolean and an integer clock per visible action; Go's unbuffered-channel, select, close, WaitGroup and context rules as constraints; maximality for deadlock/leak). "
+PROPS["C03"] = dict(
+    level="model_checking",
+    explanation=EO_NOTE + "Queries (each must be unsat): D deadlock or goroutine leak once all nodes returned; R collector not returned although cancelled (nodes may hang forever); T not returned although never cancelled; U collector loop bound; W send on closed channel / double close / negative WaitGroup / thread panic. Reachability twins must be sat.",
+    jobs=[dict(EO_JOB, eo_queries=["twin", "D", "R", "T", "U", "W"])],
+    must_reach=[],
+    bounds=dict(quick="all 15 ordered shapes with P<=3 pipelines x N_i in {2,3} nodes; all schedules, cancel instants (never/anywhere), outcomes, node delays", thorough="P<=4 x N_i in {2,3,5} (121 ordered shapes) + 4x4 + 5x3"),
+    assumptions=["received Status values are havocked in the automata (control never depends on them; contents are checked on the sequential harness)", "hand-written Go channel/select/WaitGroup/context semantics of the composer (eo_compose.py) is trusted; latency in seconds is not expressible (enabledness instead)"],
+    trusted_base=COMMON_TRUST + ["eo_compose.py: event-order semantics of unbuffered channels, select, close, WaitGroup, context cancellation"],
+)
+PROPS["C01"]["jobs"].append(dict(EO_JOB, eo_queries=["twin", "O"]))
+PROPS["C01"]["level"] = "model_checking"
+PROPS["C01"]["explanation"] += " " + EO_NOTE + "Queries O: every pipeline's root is invoked when not cancelled; no node invoked twice; a successor is invoked iff (and after) its predecessor passed."
+PROPS["C02"]["jobs"].append(dict(EO_JOB, eo_queries=["twin", "S"]))
+PROPS["C02"]["level"] = "model_checking"
+PROPS["C02"]["explanation"] += " " + EO_NOTE + "Queries S: exactly one status is received per pipeline when not cancelled; never more statuses than pipelines (each received status is matched to one real send)."
+for _p in ("C01", "C02"):
+    PROPS[_p]["bounds"] = dict(quick=PROPS[_p]["bounds"]["quick"] + "; EO: 15 ordered shapes P<=3 x N in {2,3}", thorough=PROPS[_p]["bounds"]["thorough"] + "; EO: P<=4 x N in {2,3,5} + 4x4 + 5x3")
